@@ -142,17 +142,17 @@ Definition th_dw : thresholds := set_threshold (set_threshold init_thresholds 0 
 (* band filter  T0 <= sev < T1  with a two-member sequence *)
 Definition lg_band := mkLogger (FAnd (FThr 0) (FNot (FThr 1))) 2.
 Example C05_ex_enabled :
-  exec_one cfg_info th_dw lg_band Warn (Some (B "tg")) [IStr (B "a"); INum 42; ICall 7 (B "x")]
+  exec_one cfg_info th_dw lg_band Warn (Some (B "tg")) [IStr (B "a"); INum 42; ICall KLambda 7 (B "x")]
   = [Call 7; Format (mkRecord Warn (B "tg") (B "a42x")); Sink 0 Warn (B "3|tg|a42x"); Sink 1 Warn (B "3|tg|a42x")].
 Proof. reflexivity. Qed.
 Example C05_ex_filtered :
-  exec_one cfg_info th_dw lg_band Error None [ICall 7 (B "x")] = [].
+  exec_one cfg_info th_dw lg_band Error None [ICall KStdFunL 7 (B "x")] = [].
 Proof. reflexivity. Qed.
 Example C05_ex_below_minimum :
-  exec_one cfg_info th_dw lg_band Debug None [ICall 7 (B "x")] = [].
+  exec_one cfg_info th_dw lg_band Debug None [ICall KFunPtr 7 (B "x")] = [].
 Proof. reflexivity. Qed.
 Example C05_ex_named_interleaved :
-  run cfg_info [OSet 1 Fatal; OOpen 0 lg_band Warn None; OPut 0 (ICall 1 (B "p")); OSet 0 Fatal;
+  run cfg_info [OSet 1 Fatal; OOpen 0 lg_band Warn None; OPut 0 (ICall KFunctor 1 (B "p")); OSet 0 Fatal;
                 OOne lg_band Error None [IStr (B "q")]; OPut 0 (INum (-5)); OClose 0]
   = [Call 1; Format (mkRecord Warn (B "") (B "p-5")); Sink 0 Warn (B "3||p-5"); Sink 1 Warn (B "3||p-5")].
 Proof. reflexivity. Qed.
